@@ -19,6 +19,7 @@ pub struct Event {
 }
 
 static EVENTS: Mutex<Vec<Event>> = Mutex::new(Vec::new());
+static NEXT_SEQ: AtomicU64 = AtomicU64::new(0);
 static PERTURB_SEED: AtomicU64 = AtomicU64::new(0);
 
 thread_local! {
@@ -57,7 +58,8 @@ fn worker_index() -> i64 {
 pub fn record(kind: u8, tag: u64) {
     let worker = worker_index();
     if let Ok(mut g) = EVENTS.lock() {
-        let seq = g.len() as u64;
+        // taken while holding the recorder's lock: sequence order = order of the recorded events
+        let seq = NEXT_SEQ.fetch_add(1, Ordering::SeqCst);
         g.push(Event { seq, kind, worker, tag });
     }
 }
